@@ -178,11 +178,12 @@ K = {"T1": ["T1", False], "T2": ["T2", False], "T3": ["T3", False], "T1u": ["T1"
 
 
 def lines_gen(L, D, E, kinds, unit="  ", base=0, free=(), ws=(), blank=True, suffix="", simulate=None, code_a="", code_b="",
-              mb=False, max_code=99, empty_default=False, pairs=False):
+              mb=False, max_code=99, empty_default=False, pairs=False, preamble=0, inline=False, pair_kind="R"):
     from vlib import TlaSet
     g = {"base": "GenLines", "constraint": "Feasible",
          "consts": {"L": L, "D": D, "E": E, "Kinds": TlaSet([K[k] for k in kinds]), "Unit": Chars(unit), "Base": base,
-                    "FreeInd": TlaSet(list(free)), "WsLens": TlaSet(list(ws)), "Blank": blank, "Suffix": Chars(suffix), "CodeA": Chars(code_a), "CodeB": Chars(code_b), "MbCode": mb, "MaxCode": max_code, "EmptyDefault": empty_default, "PairLines": pairs,
+                    "FreeInd": TlaSet(list(free)), "WsLens": TlaSet(list(ws)), "Blank": blank, "Suffix": Chars(suffix), "CodeA": Chars(code_a), "CodeB": Chars(code_b), "MbCode": mb, "MaxCode": max_code, "EmptyDefault": empty_default, "PairLines": pairs, "Preamble": preamble,
+                    "InlineTags": inline, "PairKind": K[pair_kind],
                     "PastTo": Chars(PAST), "FutureTo": Chars(FUTURE),
                     "Tos": [Chars(t) for t in TOS], "Names": [Chars(n) for n in MNAMES]}}
     if simulate:
@@ -219,6 +220,8 @@ def block_jobs(ctx, invariants, ops, lite=False):
                 lines_gen(5, 2, 2, ["R", "P"], unit="\t", base=1, ws=(1,)),
                 lines_gen(5, 2, 2, ["T", "F"], unit="    ", base=0, suffix="é"),
                 lines_gen(5 if lite else 6, 2, 2, ["R", "P"], base=1, ws=(2,), mb=True),       # lines of multi-byte characters only
+                lines_gen(5, 2, 2, ["R", "P"], unit=" \t", base=1, ws=(2,)),                    # mixed space / tab indentation
+                lines_gen(4, 1, 1, ["R"], unit="\t ", base=2, blank=True),
                 lines_gen(14, 3, 5, ["R", "P", "S", "U", "T", "F"], ws=(2,), base=ctx.seed % 2, simulate=(15 if lite else 80, 14)),
                 dict(lines_gen(5 - d // 2, 2, 2, ["R", "P", "T"], ws=(2,)), cfg=html)]
         ctx.job("block", gens=gens, invariants=invariants, ops=ops, cfg={"ds": "<", "de": ">"}, nontrivial=has_ready)
@@ -231,6 +234,8 @@ def block_jobs(ctx, invariants, ops, lite=False):
                           lines_gen(7, 2, 2, ["T", "F"], unit="    ", base=0, suffix="é")]),
         ("block-sim", [lines_gen(14, 3, 5, ["R", "P", "S", "U", "T", "F"], ws=(2,), base=ctx.seed % 2, simulate=(20000, 14))]),
         ("block-html", [dict(lines_gen(7, 2, 2, ["R", "P", "T"], ws=(2,)), cfg=html)]),
+        ("block-mixed-indent", [lines_gen(7, 2, 2, ["R", "P"], unit=" \t", base=1, ws=(2,)), lines_gen(6, 1, 1, ["R"], unit="\t ", base=2, blank=True),
+                                lines_gen(6, 2, 2, ["R", "P"], unit="  \t", base=1, blank=True)]),
     ]
     for (name, gens) in sets:
         ctx.job(name, gens=gens, invariants=invariants, ops=ops, cfg={"ds": "<", "de": ">"}, nontrivial=has_ready)
@@ -249,6 +254,7 @@ def unwrap_jobs(ctx, invariants, ops, lite=False):
                 lines_gen(8 - d // 2, 2, 2, ["Ru", "Pu"], base=1, blank=False),
                 lines_gen(6, 1, 1, ["Tu"], unit="\t", free=(0, 2), blank=False, suffix="あ"),
                 lines_gen(7 - d // 2, 1, 1, ["Ru"], blank=False, pairs=True, max_code=4),          # touching removed inline regions
+                lines_gen(7, 2, 2, ["Ru", "R"], blank=False, inline=True, max_code=3),              # tags sharing lines with code
                 lines_gen(6, 1, 1, ["Ru"], free=(0, 2), blank=False, base=1, code_b=" = 1"),       # interior blanks at the tag column
                 lines_gen(6, 1, 1, ["Ru"], unit="\t", free=(0, 2), blank=False, base=1, code_a=" "),
                 lines_gen(16, 3, 4, ["Ru", "R", "P", "Pu", "S"], free=(0, 1, 2), ws=(2,), simulate=(15 if lite else 80, 16))]
@@ -262,6 +268,7 @@ def unwrap_jobs(ctx, invariants, ops, lite=False):
                            lines_gen(14, 3, 3, ["Ru"], blank=False)]),
         ("unwrap-tab", [lines_gen(8, 1, 1, ["Tu"], unit="\t", free=(0, 1, 2), blank=False, suffix="あ")]),
         ("unwrap-pairs", [lines_gen(9, 2, 2, ["Ru", "P"], blank=False, pairs=True, max_code=5)]),
+        ("unwrap-inline-tags", [lines_gen(8, 2, 3, ["Ru", "R", "P"], blank=False, inline=True, max_code=4)]),
         ("unwrap-interior-blanks", [lines_gen(8, 1, 1, ["Ru"], free=(0, 1, 2), blank=False, base=1, code_b=" = 1"),
                                     lines_gen(8, 1, 1, ["Ru"], unit="\t", free=(0, 2), blank=False, base=1, code_a=" "),
                                     lines_gen(9, 2, 2, ["Ru", "R"], unit="    ", free=(0,), blank=False, base=1, code_b=" = 1 ")]),
@@ -419,6 +426,8 @@ def tab_column_jobs(ctx, invariants, ops):
             lines_gen(4 if q else 5, 1, 1, ["R"], unit="\t ", base=2, blank=False)]
     atoms = ["<rm name='a'>", "<rm name='b'>", "</rm>", "x;", "\t", " ", "\n"]
     gens.append({"base": "GenAtoms", "consts": {"Atoms": [Chars(a) for a in atoms], "N": 5 if q else 6}})
+    gens.append(lines_gen(4 if q else 5, 2, 2, ["R", "P", "Ru"], blank=False, preamble=7))      # line numbers cross 9 -> 10
+    gens.append(lines_gen(4, 1, 1, ["R", "Pu"], blank=False, preamble=97))                       # ... and 99 -> 100
     ctx.job("tab-columns", gens=gens, invariants=invariants, ops=ops, cfg={"ds": "<", "de": ">"}, nontrivial=has_ready)
 
 
@@ -654,6 +663,7 @@ def check_C19(ctx):
         ("hist-time", lines_gen(6 if q else 8, 2, 2 if q else 3, ["T1", "T2", "T3"], blank=False)),
         ("hist-unwrap", lines_gen(7 if q else 9, 2, 2, ["T1u", "T2", "T3u"] if q else ["T1u", "T2u", "T1", "T2", "T3"], blank=False)),
         ("hist-marker", lines_gen(6 if q else 8, 2, 2, ["M1", "M2u", "M3"], blank=True)),
+        ("hist-touching", lines_gen(5 if q else 7, 2, 2, ["M2", "M2u"], blank=False, pairs=True, pair_kind="M1", max_code=3)),
     ]
     for (name, g) in sets:
         g["base"] = "GenHist"
